@@ -192,10 +192,17 @@ def main(chk, replay=None):
         traces.append({"id": _tid(c), "init": {"d": d}, "events": events, "extras": extras, "norders": len(orders),
                        "case": {"d": c, "handler": c["handler"], "list": c["list"], "ign": c["ign"], "sel": c["sb"] or "/"}})
     enums = sum(1 for tr in traces for e in tr["events"] if e["ev"] == "enum")
-    distinct_orders = len({(tr["id"], tuple(e["order"])) for tr in traces for e in tr["events"] if e["ev"] == "enum"})
-    if not replay and (enums == 0 or distinct_orders < sum(tr["norders"] for tr in traces)):
-        raise core.MachineryError("C07: the substituted os.listdir did not hand out every permutation (%d of %d)"
-                                  % (distinct_orders, sum(tr["norders"] for tr in traces)))
+    # vacuity guard: wherever every listing request was answered, every permutation must have been handed out by the
+    # substituted os.listdir (a request that dies before it enumerates is an observation for TLC, not a machinery matter)
+    short = []
+    for tr in traces:
+        resp = [e for e in tr["events"] if e["ev"] == "response"]
+        if resp and all(e["status"] == "ok" for e in resp):
+            handed = len({tuple(e["order"]) for e in tr["events"] if e["ev"] == "enum"})
+            if handed < tr["norders"]:
+                short.append((tr["id"], handed, tr["norders"]))
+    if not replay and (enums == 0 or short):
+        raise core.MachineryError("C07: the substituted os.listdir did not hand out every permutation: %s" % (short[:3] or "never called"))
     # 4. TLC judges every trace
     tv = dl.validate_parallel("TraceC07", "TraceC07_run.cfg",
                              [{"id": tr["id"], "init": tr["init"], "events": tr["events"]} for tr in traces], extra_files=extra)
